@@ -1,6 +1,6 @@
 """Core A (package message): properties C03 (round trip / canonical / automatic ids) and C04 (total decoders)"""
 import re
-from .props import Prop, Run, register, COMMON_TRUSTED
+from .props import Prop, Run, register, COMMON_TRUSTED, XLATE_TRUSTED
 
 # ---- byte string syntax shared with the harness and the Lean driver -----------------
 
@@ -182,6 +182,7 @@ TRUSTED = COMMON_TRUSTED + [
     "regenerated facts: DefaultFlags table, Valid range, QoS constants, maxRemainingLength, maxLPString, msglen thresholds, "
     "varint byte limit, SupportedVersions, CONNACK code range, client-id pattern (message/*.go)",
     "reference encoder of the generators (harness/cmd/corr/codec_gen.go) and Spec/Wire.lean, both written from the MQTT 3.1.1 text",
+    XLATE_TRUSTED,
 ]
 
 register(Prop(
